@@ -88,8 +88,14 @@ def run_hist(sync, history, seed=0):
 
                             loop.inject(go)
                 elif isinstance(f.body, k.SecureWrapper):
-                    ev.append({"ev": "tx_wrapped", "v": int.from_bytes(f.body.sequence_information, "big"), "t": now()})
+                    try:                                   # what every other device of the secure backbone does with the frame
+                        peer.decrypt_frame(f)
+                        peerok = 1
+                    except Exception:  # noqa: BLE001
+                        peerok = 0
+                    ev.append({"ev": "tx_wrapped", "v": int.from_bytes(f.body.sequence_information, "big"), "t": now(), "peerok": peerok})
 
+            peer = Peer()
             loop.on_send = on_send
             await grp.connect()
             ev.append({"ev": "synced", "t": now(), "tv": grp.secure_timer.current_timer_value()})
